@@ -273,7 +273,10 @@ func reflectKind(t types.Type) reflect.Kind {
 }
 
 func ext۰reflect۰Value۰Kind(fr *frame, args []value) value {
-	// Signature: func (reflect.Value) uint
+	// Signature: func (v reflect.Value) uint
+	if rV2T(args[0]).t == nil {
+		return uint(0) // reflect.Invalid for the zero Value
+	}
 	return uint(reflectKind(rV2T(args[0]).t))
 }
 
